@@ -54,3 +54,8 @@ def old(x):
 
 def appended(new, old_, x):
     raise SkipClause()
+
+
+def reports_only_to(recognizer, listener):
+    """ghost (verifier only): the error-listener list of an ANTLR recognizer is exactly [listener]"""
+    raise SkipClause()
